@@ -93,6 +93,16 @@ def body(ck):
                      "that collect_rollout/train never read callback state is the architecture the theorem assumes (the core functions do not take it as input); observed by the metamorphic runs"]
     ck.build_coq(); ck.compile_props()
     quick = ck.tier == "quick"
+    # the same training in fresh interpreter processes (string hashing differs per process): started now, collected at the end
+    import subprocess
+    from harness.common import VERIF
+    procs = []
+    for pname in ("DQN", "SAC", "PPO"):
+        for hs in (["1", "2", "3"] if quick else ["1", "2", "3", "4", "5", "random"]):
+            env_ = dict(os.environ); env_["PYTHONHASHSEED"] = hs; env_.pop("JAX_ENABLE_X64", None)
+            procs.append((pname, hs, subprocess.Popen([sys.executable, "-m", "harness.sub_c11_process", "--algo", pname, "--seed", str(ck.seed)], cwd=str(VERIF), env=env_,
+                                                      stdout=subprocess.PIPE, stderr=subprocess.STDOUT, text=True)))
+    real_stdout = sys.stdout
     # the progress bar (rich) keeps writing to sys.stdout from its refresh thread: silence everything but the check's own lines
     sys.stdout = sys.stderr = open(os.devnull, "w")
     env = TimeLimit(CartPole(), 10); penv = TimeLimit(Pendulum(), 10)
@@ -141,6 +151,24 @@ def body(ck):
             if not same(base, out):
                 ck.violations.append(Violation("impl-violates-property", f"C11/{name}/observer-{oname}", f"attaching the observer set '{oname}' changed the trained policy", case={**ck.current_case, "observer": oname}))
     ck.current_case = None
+    import json as _json
+    import re as _re
+    by_algo = {}
+    for pname, hs, p in procs:
+        out, _ = p.communicate(timeout=1500)
+        m = _re.search(r"^RESULT (.*)$", out or "", _re.M)
+        if not m:
+            ck.violations.append(Violation("correspondence-broken", "C11/process/harness", f"{pname} run in a fresh process (PYTHONHASHSEED={hs}) produced no result",
+                                           extra={"log": (out or "")[-1500:]}))
+            continue
+        by_algo.setdefault(pname, []).append(_json.loads(m.group(1)))
+        ck.count("runs_in_fresh_processes:" + pname)
+    for pname, rs in by_algo.items():
+        ck.case_seen((pname, "fresh-processes") if all(r["trained"] for r in rs) else None)
+        if len({r["digest"] for r in rs}) > 1:
+            ck.violations.append(Violation("impl-violates-property", f"C11/{pname}/not-reproducible-across-processes",
+                                           "the same learn() call (same environment, initial policy, hyper-parameters, key) returned different parameters in different interpreter "
+                                           "processes (PYTHONHASHSEED varied): training depends on per-process state such as string hashing", case={"algo": pname, "runs": rs}))
     # callback keys are the model's callback key paths (x64 subprocess not needed: keys are integers)
     from harness.rollout_cases import gen_rollout_case
     bad = 0
